@@ -548,7 +548,12 @@ func runMemberCase(w *gal.Writer, datahash string, plant bool, fresh bool) {
 		"tar_created": tarCreated, "changed_outside": changed, "error": c.abstract(errStr(ierr))}
 	freshTerm := "None"
 	if fresh {
-		accepted := !strings.Contains(errStr(ierr), "data section hash mismatch")
+		// accepted by verifyExpanded = cachePackage moved the control section into the cache
+		// (the error text is no guide: InstallPackages reports either the expansion's own error
+		// or the installer goroutine's "expansion of .. failed", whichever comes first)
+		csum := sha1.Sum(built.Control) //nolint:gosec
+		_, aerr := os.Stat(filepath.Join(cacheDir, hex.EncodeToString(csum[:])+".ctl.tar.gz"))
+		accepted := aerr == nil
 		desc["verify_accepted"] = accepted
 		freshTerm = fmt.Sprintf("(Some (%s, %s))", gal.Str(hex.EncodeToString(built.DataSHA256)), gal.Bool(accepted))
 	}
